@@ -486,7 +486,7 @@ structure Mat (F : Type) where
   nrows : Nat
   ncols : Nat
   mem : List F
-  deriving Repr
+  deriving DecidableEq, Repr
 
 /-- Offset of `solved_values(r, c)` (1-based) in column-major storage. -/
 def offsetOf (nrows : Nat) (r c : Int) : Int := (c - 1) * nrows + (r - 1)
